@@ -33,6 +33,8 @@ type miniEval struct {
 	env   map[types.Object]constant.Value
 	input constant.Value // value given to a call the chain reads its subject from (ReadB)
 	inSym string
+	flags *uint64 // when set: every non-constant callflag value is this set, X.Has(C) folds to flags&C == C
+	lax   bool    // statements without a return inside (loops, switches) are skipped instead of giving up
 	tr    *miniTrace
 }
 
@@ -72,6 +74,17 @@ func (m *miniEval) eval(e ast.Expr) constant.Value {
 		}
 		if m.input != nil && m.calleeName(x) == m.inSym {
 			return m.input
+		}
+		if m.flags != nil && m.calleeName(x) == "Has" && len(x.Args) == 1 {
+			if se, ok := ast.Unparen(x.Fun).(*ast.SelectorExpr); ok {
+				if t := m.info.TypeOf(se.X); t != nil && strings.HasSuffix(t.String(), "callflag.CallFlag") {
+					if av := m.eval(x.Args[0]); av != nil {
+						if mask, ok := constant.Uint64Val(constant.ToInt(av)); ok {
+							return constant.MakeBool(*m.flags&mask == mask)
+						}
+					}
+				}
+			}
 		}
 	case *ast.UnaryExpr:
 		if v := m.eval(x.X); v != nil {
@@ -133,6 +146,10 @@ func (m *miniEval) exec(list []ast.Stmt) bool {
 				// a condition over something else than the subject (an error latch): both arms must not matter;
 				// take the fall-through when the body only returns a zero value
 				if onlyBails(s.Body) && s.Else == nil {
+					continue
+				}
+				if m.lax && !hasReturn(s) {
+					m.collectCalls(s, &m.tr.calls)
 					continue
 				}
 				m.tr.why = "condition not decided by the subject: " + types.ExprString(s.Cond)
@@ -206,11 +223,26 @@ func (m *miniEval) exec(list []ast.Stmt) bool {
 				return true
 			}
 		default:
+			if m.lax && !hasReturn(st) {
+				m.collectCalls(st, &m.tr.calls)
+				continue
+			}
 			m.tr.why = fmt.Sprintf("statement %T not folded", st)
 			return true
 		}
 	}
 	return false
+}
+
+func hasReturn(n ast.Node) bool {
+	found := false
+	inspectNoLit(n, func(x ast.Node) bool {
+		if _, ok := x.(*ast.ReturnStmt); ok {
+			found = true
+		}
+		return !found
+	})
+	return found
 }
 
 // onlyBails: the block is a single return (the `if r.Err != nil { return 0 }` latch).
